@@ -16,7 +16,8 @@
 
 static uint64_t* rep;
 static size_t rep_n, rep_i;
-static int replay_mode;
+int verif_replay_mode; /* 1 = inputs come from a replay vector */
+#define replay_mode verif_replay_mode
 static uint64_t rng;
 static int n_assert, failed;
 
